@@ -20,11 +20,9 @@ Section NM.
     | [] => [(k, v)]
     | (k', v') :: r => if Nat.eqb k k' then (k, v) :: r else (k', v') :: nset k v r
     end.
-  Fixpoint ndel (k : nat) (m : list (nat * A)) : list (nat * A) :=
-    match m with
-    | [] => []
-    | (k', v') :: r => if Nat.eqb k k' then r else (k', v') :: ndel k r
-    end.
+  (* delKey: every entry of the key goes (there is at most one) *)
+  Definition ndel (k : nat) (m : list (nat * A)) : list (nat * A) :=
+    filter (fun p => negb (Nat.eqb (fst p) k)) m.
 End NM.
 
 Inductive cmd := Push (k : nat) | Pop (k : nat) | Len (k : nat) | Del (k : nat) | Move (a b : nat)
